@@ -23,7 +23,7 @@ from . import common
 LEVEL = "model_checking"
 H = "name d\nversion 1.0\n"
 GROUPS = [["a", "alpha"], ["e", "x1"], ["a", "b", "c"], ["a_1", "a", "alpha"], ["q0", "q1", "q2"], ["q1", "q10"], ["phi", "p", "ph"]]
-VALS = {"a": 0.5, "alpha": -1.25, "b": 2.0, "c": 0.75, "e": 1.5, "x1": 3.0, "a_1": 0.1, "phi": 0.3, "p": 1.1, "ph": -0.7, "n": 2.5}
+VALS = {"q1a": 0.9, "q2_0": -0.4, "pix": 1.7, "sqrt2": 0.2, "p0": 2.2, "a": 0.5, "alpha": -1.25, "b": 2.0, "c": 0.75, "e": 1.5, "x1": 3.0, "a_1": 0.1, "phi": 0.3, "p": 1.1, "ph": -0.7, "n": 2.5}
 
 
 def menu(d):
@@ -33,6 +33,7 @@ def menu(d):
     M["three-params"] = H + "\nG({a}*{b}-{c}, {c}/{a}) | [0, 1]\nH({b}) | 1\n"
     M["three-overlapping"] = H + "\nG({a_1}-{a}*{alpha}, k={alpha}+{a_1}) | 0\n"
     M["prefix-names"] = H + "\nG({phi}+{p}*{ph}, {p}) | 0\nH(k={ph}-{phi}) | 1\n"
+    M["lookalike-names"] = H + "\nG({q1a}-{a}, {q2_0}*{pix}) | 0\nH(k={sqrt2}+{p0}) | 1\n"
     M["kw-params"] = H + "\nG(1, k={a}-{b}, l=[1, 2]) | 0\n"
     M["three-registers"] = H + "\nMeasureX | 0\nMeasureX | 1\nMeasureX | 2\nG(q1-q0*q2, q0/q2) | 3\n"
     M["regs-q1-q10"] = H + "\nG(q10-2*q1, k=q1/q10) | 0\n"
